@@ -11,6 +11,7 @@ import Circomspect.Spec.Trace
 import Circomspect.Model.UniqueVars
 import Circomspect.Model.Ssa
 import Circomspect.Model.Propagate
+import Circomspect.Model.SignalAssign
 import Driver.Sexp
 
 namespace Driver
@@ -568,6 +569,22 @@ def propagateCmd (rest : String) : String :=
     s!"{fixV} {fixD} " ++ " ".intercalate anns
   | _ => "bad-op"
 
+/-- `sigassign <kind> <stmt>*` with `A:<s>-<e>:<key>:<0|1>` and `C:<s>-<e>:<key,key,...>` -/
+def sigassignCmd (args : List String) : String :=
+  match args with
+  | kind :: toks =>
+    let k : SignalAssign.Kind := if kind == "tmpl" then .template else if kind == "fn" then .function else .custom
+    let locOf' (t : String) : Nat × Nat := match t.splitOn "-" with | [a, b] => (a.toNat?.getD 0, b.toNat?.getD 0) | _ => (0, 0)
+    let ss : List SignalAssign.Stmt := toks.map (fun t => match t.splitOn ":" with
+      | ["A", l, key, q] => .assign (locOf' l) key (q == "1")
+      | ["C", l, keys] => .constraint (locOf' l) (csv keys ",")
+      | _ => .other)
+    let rs := SignalAssign.findSignalAssignments k ss
+    if rs.isEmpty then "-" else " ".intercalate (rs.map (fun r => match r with
+      | .signalAssignment l key secs => s!"CS0005:{l.1}-{l.2}:{key}:{",".intercalate (secs.map (fun x => s!"{x.1}-{x.2}"))}"
+      | .unnecessary l key => s!"CS0013:{l.1}-{l.2}:{key}:"))
+  | _ => "bad-op"
+
 def showIStmt : CfgLift.IStmt → String
   | .simple l => s!"s{l.1}-{l.2}"
   | .branch l t f => s!"i{l.1}-{l.2}:{t}:{match f with | some f => toString f | none => "-"}"
@@ -610,6 +627,7 @@ def handle (line : String) : String :=
   | "fieldspec" :: args => fieldSpecCmd args
   | "c11" :: args => c11Cmd args
   | "runner" :: args => runnerCmd args
+  | "sigassign" :: args => sigassignCmd args
   | "dom" :: args => domCmd false args
   | "strip" :: args => stripCmd false args
   | "stripspec" :: args => stripCmd true args
